@@ -182,13 +182,13 @@ func verifHarness_C01_tcp_four_ops_T() {
 
 func verifHarness_C01_tcp_longer_buffers_T() {
 	verifBound("ops", 3)
-	verifBound("buffer_len", 4)
-	verifC01Program(ConnTypeTCP, 3, 4, false, "tcp")
+	verifBound("buffer_len", 3)
+	verifC01Program(ConnTypeTCP, 3, 3, false, "tcp")
 	verifAssert(false, "witness")
 }
 
 func verifHarness_C01_unix_T() {
-	verifC01Program(ConnTypeUnix, 3, 3, true, "unix+sendfile")
+	verifC01Program(ConnTypeUnix, 3, 2, true, "unix+sendfile")
 	verifAssert(false, "witness")
 }
 
